@@ -39,14 +39,14 @@ CLAIMED["C02"] = dict(
     design_ref="§4 C02")
 CLAIMED["C03"] = dict(
     category="fault_enumeration", engine="vsched",
-    text="For every scenario (all permission expressions with <=2 leaves x 7 tuple graphs) the fault-free check issues N storage calls; every position k=1..N x {transient, persistent} x {generic error, context.DeadlineExceeded} is injected at the storage interface of the instrumented engine, and the transient fault is additionally explored under every schedule with one deviation (failing call reordered against its siblings). Oracle: result is an error or the fault-free result of the same schedule; never allowed when fault-free denied; no result carries an error together with 'allowed' (also per BatchCheck entry). Fault kinds: generic, deadline exceeded, cancelled query (context.Canceled while the request context is alive); the SQL statement-fault part covers all graphs and the includes-a / includes-b / traverse leaves.",
+    text="For every scenario (all permission expressions with <=2 leaves x 7 tuple graphs) the fault-free check issues N storage calls; every position k=1..N x {transient, persistent} x {generic error, context.DeadlineExceeded} is injected at the storage interface of the instrumented engine, and the transient fault is additionally explored under every schedule with one deviation (failing call reordered against its siblings). Oracle: result is an error or the fault-free result of the same schedule; never allowed when fault-free denied; no result carries an error together with 'allowed' (also per BatchCheck entry). Fault kinds: generic, deadline exceeded, cancelled query (context.Canceled while the request context is alive); the SQL statement-fault part covers all graphs and the includes-a / includes-b / traverse leaves. A serialization-failure error (sqlcon.ErrConcurrentUpdate) is among the fault kinds; timers in the engine are modelled (durations elapse instantly).",
     note="Faults at the Manager/Traverser interface (in-memory store bound to SQL by C01 part B); SQL-statement-level faults are exercised in C05's harness for writes.",
     technique="exhaustive fault-position enumeration on the implementation under a controlled scheduler, differential against the fault-free run",
     design_ref="§4 C03")
 
 CLAIMED["C04"] = dict(
     category="model_checking", engine="enum",
-    text="Explicit-state breadth-first search over API histories on the real REST and gRPC handlers (in-process httptest / bufconn, sqlite-backed registry): alphabet of 56 operations (REST PUT/DELETE/PATCH, gRPC Transact/Delete, valid and invalid arguments), 3 roots (empty + 2 seeded stores), canonical state = multiset with multiplicity capped at 2, successors produced by replaying the shortest path on a truncated database, depth 3 quick / until the frontier empties (depth 7, 2187 states) thorough. After every transition: full listings on both transports + one query per query shape against the multiset reference model (h/refsem RefStore), accept/reject/no-effect oracles; on every new state the full 180-query sweep with two page sizes and a check/expand write-visibility panel. A bystander network with two relationships (one spelled like a tuple of the alphabet) shares the database during the whole search: never listed, never removed.",
+    text="Explicit-state breadth-first search over API histories on the real REST and gRPC handlers (in-process httptest / bufconn, sqlite-backed registry): alphabet of 56 operations (REST PUT/DELETE/PATCH, gRPC Transact/Delete, valid and invalid arguments), 3 roots (empty + 2 seeded stores), canonical state = multiset with multiplicity capped at 2, successors produced by replaying the shortest path on a truncated database, depth 3 quick / until the frontier empties (depth 7, 2187 states) thorough. After every transition: full listings on both transports + one query per query shape against the multiset reference model (h/refsem RefStore), accept/reject/no-effect oracles; on every new state the full 180-query sweep with two page sizes and a check/expand write-visibility panel. A bystander network with two relationships (one spelled like a tuple of the alphabet) shares the database during the whole search: never listed, never removed. The query sweep includes the empty string as a present value of object and relation (320 queries).",
     note="SQLite only; state abstraction caps multiplicities at 2 (delete removes all copies, so deeper multiplicities behave identically); check/expand panel is the direct-tuple version.",
     technique="explicit-state BFS over operation histories with canonical-state de-duplication, real handlers as the transition function, reference-model oracle",
     design_ref="§4 C04")
@@ -71,7 +71,7 @@ CLAIMED["C17"] = dict(
 
 CLAIMED["C14"] = dict(
     category="model_checking", engine="vsched",
-    text="Schedule exploration of request PAIRS on one instrumented engine over a fixed store: every multiset of 2 requests from {check x3 (shared sub-graph, cyclic data), batch check, expand} under two configurations (a && !b, b || traverse), all interleavings up to deviation bound 1 (thorough 2) with storage calls as scheduling points; each request's answer must lie in the outcome set the same request produces alone over all schedules to the same bound. Complement: the same kinds of requests free-running under the Go race detector against the sqlite registry and its REST/gRPC servers, concurrent first requests on fresh registries and mixed with writes; every distinct race report is a violation keyed by the top keto frames of both accesses. Built as three passes: (1) alone sets, every exploration split across all workers; (2) pairs incl. a depth-variant of the same tuple through CheckRelationTuple and CheckIsMember, cancel phases under both canonical select picks, a pagination phase through one shared ManagerWrapper; (3) API pass: 16 read requests (list pages with different tokens / sizes, checks with different depths, batch, expand; REST and gRPC) of one network, every ordered pair, the first paused inside the SQL driver before each of its statements. The API pass includes lists over 150 names and the repeat oracle (the same request again, nothing else running, must answer the same); the race pass also runs two tenants with their own configuration sources. Thorough = the bound-1 passes (complete alone sets) followed by bound-2 passes as far as the cap allows.",
+    text="Schedule exploration of request PAIRS on one instrumented engine over a fixed store: every multiset of 2 requests from {check x3 (shared sub-graph, cyclic data), batch check, expand} under two configurations (a && !b, b || traverse), all interleavings up to deviation bound 1 (thorough 2) with storage calls as scheduling points; each request's answer must lie in the outcome set the same request produces alone over all schedules to the same bound. Complement: the same kinds of requests free-running under the Go race detector against the sqlite registry and its REST/gRPC servers, concurrent first requests on fresh registries and mixed with writes; every distinct race report is a violation keyed by the top keto frames of both accesses. Built as three passes: (1) alone sets, every exploration split across all workers; (2) pairs incl. a depth-variant of the same tuple through CheckRelationTuple and CheckIsMember, cancel phases under both canonical select picks, a pagination phase through one shared ManagerWrapper; (3) API pass: 16 read requests (list pages with different tokens / sizes, checks with different depths, batch, expand; REST and gRPC) of one network, every ordered pair, the first paused inside the SQL driver before each of its statements. The API pass includes lists over 150 names and the repeat oracle (the same request again, nothing else running, must answer the same); the race pass also runs two tenants with their own configuration sources. Thorough = the bound-1 passes (complete alone sets) followed by bound-2 passes as far as the cap allows. Pre-cancelled twin phase: a request issued with an already cancelled context while an identical one is in flight must fail with the cancellation.",
     note="The -race pass is not exhaustive (stated in evidence); cooperative scheduling cannot see data races; bounds: 2 concurrent requests, deviation bound.",
     technique="deviation-bounded stateless schedule exploration of concurrent requests on the instrumented implementation (differential against solo runs) + free-running race-detector pass",
     design_ref="§4 C14")
@@ -97,7 +97,7 @@ CLAIMED["C13"] = dict(
     design_ref="§4 C13")
 CLAIMED["C16"] = dict(
     category="exploration", engine="enum",
-    text="182 adversarial strings (empty, separators, escapes, NFC/NFD, RTL, emoji, 4-byte runes, 10 kB, case / trailing-space / ZWJ twins): all 33k ordered pairs for injectivity of the string<->UUID mapping; batches of sizes around 1, 50, 100, 150, 200, 250 (thorough 1..260, 301, 400, 401) x 5 duplicate patterns x {subject id, subject set, mixed} through Mapper.FromTuple->ToTuple, FromQuery->ToQuery (16 shapes) and ToTree, position-wise; end-to-end write -> list / expand / check over REST and gRPC; the reverse-lookup paging loop with explicit page sizes 1..5 x 0..12 ids and 99..201 ids at page sizes 7/50/99/100/101 (through an added, non-replacing method in the persister package). Write-chunk boundaries: batches of 14999 / 15000 / 15001 / 30001 never-seen names (and 29999..30002 with every name twice; tuple batches of 2999..3001 and 7499..7501 tuples) through the same round trips - the insert of new mappings is chunked by 15000 rows. One failing statement (every statement in turn) in reverse lookups of 150 / 250 ids (several lookup pages): an error or the right names. Every reverse lookup is repeated: the second answer must equal the first.",
+    text="182 adversarial strings (empty, separators, escapes, NFC/NFD, RTL, emoji, 4-byte runes, 10 kB, case / trailing-space / ZWJ twins): all 33k ordered pairs for injectivity of the string<->UUID mapping; batches of sizes around 1, 50, 100, 150, 200, 250 (thorough 1..260, 301, 400, 401) x 5 duplicate patterns x {subject id, subject set, mixed} through Mapper.FromTuple->ToTuple, FromQuery->ToQuery (16 shapes) and ToTree, position-wise; end-to-end write -> list / expand / check over REST and gRPC; the reverse-lookup paging loop with explicit page sizes 1..5 x 0..12 ids and 99..201 ids at page sizes 7/50/99/100/101 (through an added, non-replacing method in the persister package). Write-chunk boundaries: batches of 14999 / 15000 / 15001 / 30001 never-seen names (and 29999..30002 with every name twice; tuple batches of 2999..3001 and 7499..7501 tuples) through the same round trips - the insert of new mappings is chunked by 15000 rows. One failing statement (every statement in turn) in reverse lookups of 150 / 250 ids (several lookup pages): an error or the right names. Every reverse lookup is repeated: the second answer must equal the first. The Location header of every create answer is decoded back to the relationship.",
     note="Which id falls on the page boundary at the production page size depends on Go map iteration order and is not controlled (stated in evidence); UUIDv5 collision freedom is taken as given.",
     technique="bounded-exhaustive enumeration of names and batch shapes against round-trip / injectivity oracles",
     design_ref="§4 C16")
@@ -116,14 +116,14 @@ CLAIMED["C11"] = dict(
     design_ref="§4 C11")
 CLAIMED["C12"] = dict(
     category="exploration", engine="enum",
-    text="All byte strings of length <=2 and all strings of length <=4 (thorough 5) over a 25-byte alphabet (every delimiter, quotes, comment starts, newline, letter, digit, non-ASCII and invalid UTF-8) in 5 parser contexts; all token sequences of length <=4 (5) over 41 spellings x 3 separators; the complete single-edit neighbourhood of the corpus documents; 28 geometric families up to 2^14 (2^16). Oracle: no panic, terminates (step-count watchdog), errors or well-formed namespaces, every error position inside the input with start <= end, Error/ToAPI/ToProto do not panic, REST and gRPC syntax endpoints agree with Parse; LINEAR WORK measured without wall-clock: tools/vticks inserts a tick at every function entry and loop body of package schema (generated overlay); ticks <= 100*|s|+500 on every input and doubling ratio <= 2.5 on every family. Runs of 1..64 adjacent one-rune tokens; a Parse that is permanently blocked (goroutine parked, no tick progress) is reported as non-termination; error-lifetime pairs: the errors of Parse(a) are rendered after Parse(b) ran on the same goroutine. A fatal error inside Parse is a violation too: inputs are journalled in a shared mapping before each Parse, the check runs below a supervisor, a process that dies inside Parse is reported with its input.",
+    text="All byte strings of length <=2 and all strings of length <=4 (thorough 5) over a 25-byte alphabet (every delimiter, quotes, comment starts, newline, letter, digit, non-ASCII and invalid UTF-8) in 5 parser contexts; all token sequences of length <=4 (5) over 41 spellings x 3 separators; the complete single-edit neighbourhood of the corpus documents; 28 geometric families up to 2^14 (2^16). Oracle: no panic, terminates (step-count watchdog), errors or well-formed namespaces, every error position inside the input with start <= end, Error/ToAPI/ToProto do not panic, REST and gRPC syntax endpoints agree with Parse; LINEAR WORK measured without wall-clock: tools/vticks inserts a tick at every function entry and loop body of package schema (generated overlay); ticks <= 100*|s|+500 on every input and doubling ratio <= 2.5 on every family. Runs of 1..64 adjacent one-rune tokens; a Parse that is permanently blocked (goroutine parked, no tick progress) is reported as non-termination; error-lifetime pairs: the errors of Parse(a) are rendered after Parse(b) ran on the same goroutine. A fatal error inside Parse is a violation too: inputs are journalled in a shared mapping before each Parse, the check runs below a supervisor, a process that dies inside Parse is reported with its input. REST syntax requests are also sent with the body arriving 1 and 7 bytes per read.",
     note="Hidden library costs inside a single call (e.g. fmt) are not counted; rendering n errors through the endpoints is quadratic in n (observed, not judged: the statement bounds parsing).",
     technique="bounded-exhaustive input enumeration with deterministic step counting (instrumented work counter) as the complexity oracle",
     design_ref="§4 C12")
 
 CLAIMED["C05"] = dict(
     category="fault_enumeration", engine="sqlfault",
-    text="55 write requests (REST create, REST PATCH / gRPC Transact with |I| in {0,1,2,3000,3001} x |D| in {0,1,100,101,201}, delete-by-query, Manager-level TransactRelationTuples; thorough adds |I| = 6001 and 7501, crossing the 15000-mapping chunk). For each, with N = the SQL statements of the fault-free request seen by the driver tap: (a) EVERY k in 1..N x {fail before executing, fail after executing, drop the connection}; (b) an invalid tuple / unknown namespace at every position (chunk boundaries +-1 for large batches); (c) REAL crash points: a worker subprocess on a file-backed database is SIGKILLed inside the driver before and after every statement k and the file is reopened by a fresh registry; (d) a reader on a second registry (same database, WAL and shared-cache variants) reads while the writer is paused at EVERY statement boundary, and every pair of boundaries for a two-read reader. Oracle: relationships after in {before, apply(I,D,before)}, = before when an error was reported; reader observations are the before- or the after-state and never go backwards. (e) RETRY part: requests whose names were never seen by the database, attempt 1 rolled back by a fault at every statement k (before / after), then the same request retried and every written relationship looked up by name over REST - all-or-nothing includes the name mappings the request created (a fault after COMMIT ran is recognised by listing first). (f) action spellings (capitalised, upper case, leading / trailing space) at every delta position of the small PATCH requests: refused as a whole, or the whole request - never the request without that delta.",
+    text="55 write requests (REST create, REST PATCH / gRPC Transact with |I| in {0,1,2,3000,3001} x |D| in {0,1,100,101,201}, delete-by-query, Manager-level TransactRelationTuples; thorough adds |I| = 6001 and 7501, crossing the 15000-mapping chunk). For each, with N = the SQL statements of the fault-free request seen by the driver tap: (a) EVERY k in 1..N x {fail before executing, fail after executing, drop the connection}; (b) an invalid tuple / unknown namespace at every position (chunk boundaries +-1 for large batches); (c) REAL crash points: a worker subprocess on a file-backed database is SIGKILLed inside the driver before and after every statement k and the file is reopened by a fresh registry; (d) a reader on a second registry (same database, WAL and shared-cache variants) reads while the writer is paused at EVERY statement boundary, and every pair of boundaries for a two-read reader. Oracle: relationships after in {before, apply(I,D,before)}, = before when an error was reported; reader observations are the before- or the after-state and never go backwards. (e) RETRY part: requests whose names were never seen by the database, attempt 1 rolled back by a fault at every statement k (before / after), then the same request retried and every written relationship looked up by name over REST - all-or-nothing includes the name mappings the request created (a fault after COMMIT ran is recognised by listing first). (f) action spellings (capitalised, upper case, leading / trailing space) at every delta position of the small PATCH requests: refused as a whole, or the whole request - never the request without that delta. (g) the READER paused at each of its own statements while a whole request commits (listing of 1500 other rows, page size 10000: all or nothing of the request's inserts); a seeding write that is not stored as given is reported.",
     note="SQLite only (the only engine in the sandbox): what keto contributes - one transaction around the whole request, reused by nested calls - is what is falsifiable here; an error injected after COMMIT executed is a lost acknowledgement (either state accepted).",
     technique="exhaustive fault-position, crash-point (real SIGKILL) and reader-schedule enumeration at SQL-statement granularity on the implementation",
     design_ref="§4 C05")
